@@ -83,6 +83,9 @@ def plan_run(run_seed, prop):
         plan_pipeline_hint = tp.choice(["expand_macro", "macro_first"])
     else:
         plan_pipeline_hint = None
+    if plan_pipeline_hint is None and len(prog["maps"]) >= 2 and tp.chance(0.45):
+        # alias chains meet alias fill-in: prefer the pipelines that run fill_in_map
+        plan_pipeline_hint = tp.choice(["expand_let_map", "passes_first"])
     if tp.chance(0.3):
         # a pulse import in the header; never loaded (autoload_pulses=False), pure header data
         prog["pulses"] = tp.choice(["qscout.v1.std", ".local_pulses", "lab.gates"])
@@ -96,7 +99,7 @@ def plan_run(run_seed, prop):
         "sampler_mode": tp.weighted([("faithful", 3), ("adversarial", 4), ("numpy", 2)]),
         "hw_encoding": tp.choice(["int", "str", "mixed"]),
         "pipeline": tp.choice(["plain", "expand_let", "expand_macro", "expand_let_map", "fill_let", "passes_first", "macro_first", "api_kwargs", "autoload", "run_string", "run_file"]),
-        "bounding": tp.weighted([("native", 5), ("caller", 1), ("names", 1), ("other_names", 0.7)]),
+        "bounding": tp.weighted([("native", 5), ("caller", 1), ("caller_copy", 1), ("names", 1), ("other_names", 0.7)]),
         "return_usepulses": tp.chance(0.25),
         "rerun": tp.chance(0.35),
         "gateset_style": tp.choice(["direct", "direct", "copied"]),
@@ -847,6 +850,12 @@ def check_c09_structure(viol, plan, texts, G, clock, budget, probe):
         if caller:
             pd, md = GateDefinition("prepare_all"), GateDefinition("measure_all")
             eA = expand_subcircuits(cA, prepare_def=pd, measure_def=md)
+        elif plan["bounding"] == "caller_copy":
+            # the caller's definitions are renamed copies of the native ones, taken after
+            # the native ones have been used (the parser calls them for explicit brackets)
+            G["prepare_all"](), G["measure_all"]()
+            pd, md = G["prepare_all"].copy(name="prepare_fast"), G["measure_all"].copy(name="measure_fast")
+            eA = expand_subcircuits(cA, prepare_def=pd, measure_def=md)
         elif plan["bounding"] == "names":
             # definitions named by strings that the native table knows
             pd, md = G["prepare_all"], G["measure_all"]
@@ -870,7 +879,18 @@ def check_c09_structure(viol, plan, texts, G, clock, budget, probe):
     except extract.Unresolvable as e:
         probe("c09_structure_unresolvable")
         return
-    if plan["bounding"] == "other_names":
+    if plan["bounding"] == "caller_copy":
+        own = any(g.name in GS.BUSY for g in extract.iter_gates(cA))
+        names = {g.name for g in extract.iter_gates(eA)}
+        if has_kind_sub(cA) and not ({"prepare_fast", "measure_fast"} <= names):
+            viol.add("C09", "bounding_gate_definition", "mismatch", "caller_copy", "the caller's renamed copies were not used: gate names %r" % sorted(n_ for n_ in names if "prepare" in n_ or "measure" in n_))
+        for g in extract.iter_gates(eA):
+            if g.name == "prepare_fast" and g.gate_def is not pd or g.name == "measure_fast" and g.gate_def is not md:
+                viol.add("C09", "bounding_gate_definition", "mismatch", "caller_copy", "statement not bound to the caller's definition")
+                break
+        probe("c09_caller_copy")
+        pd = None
+    elif plan["bounding"] == "other_names":
         # same shape as B with the bounding gates renamed
         def ren(t):
             if isinstance(t, tuple) and t and t[0] == "g":
@@ -903,7 +923,7 @@ def check_c09_structure(viol, plan, texts, G, clock, budget, probe):
         viol.add("C09", "header_unchanged", "mismatch", "expand_subcircuits", "%r vs %r" % (hdr_a, hdr_e))
     if list(cA.macros) != list(eA.macros):
         viol.add("C09", "macros_kept", "mismatch", "expand_subcircuits")
-    elif plan["bounding"] != "other_names":
+    elif plan["bounding"] not in ("other_names", "caller_copy"):
         for name in cB.macros:
             if name in eA.macros and extract.definition_view(eA, eA.macros[name]) != extract.definition_view(cB, cB.macros[name]):
                 viol.add("C09", "macro_definition_meaning", "mismatch", "expand_subcircuits", name)
@@ -941,6 +961,12 @@ def check_c09_structure(viol, plan, texts, G, clock, budget, probe):
         probe("c09_no_native_bounding_gates")
     elif o2["kind"] not in ("JaqalError",):
         viol.add("C09", "expand_subcircuits_runs", o2["kind"], o2.get("where", ""), "gate table without bounding gates: %s" % o2.get("exc"))
+
+
+def has_kind_sub(circuit):
+    from . import extract
+
+    return any(getattr(b, "subcircuit", False) for b in extract.iter_blocks(circuit))
 
 
 def _in_source(g, circuit):
